@@ -25,6 +25,7 @@ __probe () {
 }
 
 __probe_log=${4:-/dev/null}
+__have_probes=$3
 __default_wb=$COMP_WORDBREAKS
 source "$1" 2>/dev/null
 __cmd=$2
@@ -36,7 +37,7 @@ while IFS= read -r __line; do
     for __h in "$@"; do __unhex "$__h"; COMP_WORDS+=("$__out"); done
     COMP_CWORD=$((${#COMP_WORDS[@]} - 1))
     COMPREPLY=()
-    [[ -n $3 ]] && : > "$__probe_log"
+    [[ -n $__have_probes ]] && : > "$__probe_log"
     "_$__cmd" 2>/dev/null
     printf 'RC=%d\0' $?
     for __c in "${COMPREPLY[@]}"; do printf '%s\0' "$__c"; done
